@@ -10,19 +10,21 @@ from .common import Check
 
 GEN_TARGETS = ['search', 'geoassignments', 'heapdict']
 GEN_TARGETS_EXH = GEN_TARGETS + ['exhaustive']     # properties whose theorems are also stated on the translated exhaustive_search
+GEN_TARGETS_ALL = GEN_TARGETS + ['exhaustive', 'greedy']   # ... and on the translated _greedy_search
 
 TRUSTED_BASE = [
     'Coq 8.16.1 kernel and vm_compute (no native_compute); primitive floats (PrimFloat) only in the executable '
     'instance FloatOps used by the correspondence, never in a theorem',
     'axioms: none (Print Assumptions: closed under the global context for every property theorem)',
-    'translator translate/py2v.py (targets search, geoassignments, heapdict; exhaustive for C01-C04, C09, C11) and the bridge lemmas of '
-    'proofs/SearchBridge.v, proofs/ExhaustiveBridge.v; reading of objects by the exhaustive target: a TBRMMDiagnostics object is the '
+    'translator translate/py2v.py (targets search, geoassignments, heapdict; exhaustive and greedy for the properties about the searches) '
+    'and the bridge lemmas of proofs/SearchBridge.v, proofs/ExhaustiveBridge.v, proofs/GreedyBridge.v; reading of objects by the search targets: a TBRMMDiagnostics object is the '
     'pair of groups whose series it holds, copy.deepcopy snapshots that value, a TBRMMDesign is (score, groups, groups of its diagnostics)',
     'modelled, not verified: numpy/scipy/pandas kernels (aggregate_geo_share, aggregate_time_series, corrcoef, '
     'required impact, A/A, Brownian-bridge, Durbin-Watson tests) enter the model as oracles over index sets; '
-    'exhaustive_search is translated on every run and proved equal to the hand-written model (proofs/ExhaustiveBridge.v); '
-    'greedy_search / geos_within_constraints / search_results are hand-modelled (model/Search.v); all are tied by '
-    'executed correspondence; heapq contract; itertools.combinations order; CPython iteration order of small-int sets '
+    'exhaustive_search and _greedy_search are translated on every run and proved equal to the hand-written models '
+    '(proofs/ExhaustiveBridge.v, proofs/GreedyBridge.v; the greedy while loop with explicit fuel; dict reads default to the empty set, '
+    'a KeyError is not modelled; sets are iterated in ascending order); geos_within_constraints / search_results are hand-modelled '
+    '(model/Search.v); all are tied by executed correspondence; heapq contract; itertools.combinations order; CPython iteration order of small-int sets '
     '(ascending) -- relevant only when scores tie',
     'harness: kernel tables are computed with fresh TBRMMDiagnostics/TBRMMScore objects; floats in score tuples are '
     'replaced by dense ranks (order- and equality-preserving), NaN by None; threshold values are passed as exact binary64',
